@@ -39,6 +39,9 @@ def persisted (r : Req) : Bool :=
   if r.ver = 0 then r.conn.isSome && containsSub (lit "keep-alive") c
   else !(r.conn.isSome && containsSub (lit "close") c)
 
+/-- `"{0} {1}".format(status, STATUS_DESCRIPTIONS[status])` for an int status -/
+def statusOfCode (n : Nat) : Bytes := toDec n ++ [32] ++ ((Gen.statusDescriptions.lookup n).getD [])
+
 def fixedDate : Bytes := lit "Thu, 01 Jan 1970 00:00:00 GMT"
 
 /-- the header list `start()` stores: the app's list, plus Content-Length when the app declares one -/
